@@ -170,7 +170,8 @@ def run_shard(spec, ctx):
     def apply(name, fn, operands, kind, desc):
         """kind: 'value' (operators/copies/accessors: no mutation + no alias + mutate result) or 'helper' (no mutation only)."""
         before = [fp(o) for o in operands]
-        ctx.case([name, desc, hash(tuple(x[2] for b in before for x in b))], True, sample_every=211)
+        ctx.case([name, desc, hash(tuple(x[2] for b in before for x in b))], True, sample_every=211,
+                 sample={"operation": name, "operands": [[np.asarray(a).ravel().tolist()[:16] for a in arrays_of(o)] for o in operands]})
         try:
             r = fn(*operands)
         except Exception as e:
